@@ -890,12 +890,18 @@ def translate(repo):
         aliases.update({"_" + q: q for q in sigs})          # `_tools.xor`, `_mac.pad_iso9797_2`, … (module aliases)
         # harmless rewrites (module constants, private helpers, chained comparisons, …) are brought to the form the
         # translator reads (harness/pynorm.py); what is left over is judged as before
+        bind_problem = None
+        try:
+            pynorm.check_package(repo)
+            pynorm.check_bindings(trees[mod])            # every name the translator reads by its spelling means what it says
+        except pynorm.Binding as e:
+            bind_problem = f"{mod}: {e}"
         tree = pynorm.normalise(trees[mod], public=names, signatures=sigs, aliases=aliases)
-        mod_problem = None
+        mod_problem = bind_problem
         try:
             check_module(mod, tree)
         except Unsupported as e:
-            mod_problem = str(e)                         # module-level state / decorators: no function of it can be trusted
+            mod_problem = mod_problem or str(e)                         # module-level state / decorators: no function of it can be trusted
         fns = {n.name: n for n in tree.body if isinstance(n, ast.FunctionDef)}
         out.append(f"namespace {mod}")
         for name in names:
